@@ -189,11 +189,20 @@ class DataFrame:
 
     def distinct(self) -> "DataFrame":
         seen = set()
-        unique_rows = [
-            x
-            for x in self._rows
-            if x not in seen and not seen.add(x)  # type:ignore
-        ]
+        # rows holding unhashable values (the lists of ARRAY columns) cannot go in a set,
+        # they are compared by value with the rows of that kind kept so far
+        seen_unhashable = []
+        unique_rows = []
+        for x in self._rows:
+            try:
+                if x in seen:
+                    continue
+                seen.add(x)
+            except TypeError:
+                if x in seen_unhashable:
+                    continue
+                seen_unhashable.append(x)
+            unique_rows.append(x)
         return DataFrame(rows=unique_rows, schema=self._schema)
 
     def collect(
